@@ -62,8 +62,8 @@ theorem table_facts :
   ⟨table_convergence, table_covers, table_entries_pinned, table_entry0.1, gain_fact⟩
 
 /-- the public constants of `transcendental.rs` (regenerated from the source on every run) are consistent truncations of one another and of the 128-bit
-`consts::PI` / `LOG2_E` / `E` they are shifted out of: `TWO_PI`, `PI`, `FRAC_PI_2`, `FRAC_PI_4` (the last is used by no function of the crate, so no accuracy
-theorem pins it; a mutation campaign found its shift amount unguarded) -/
+`consts::PI` / `LOG2_E` / `E` they are shifted out of: `TWO_PI`, `PI`, `FRAC_PI_2`, `FRAC_PI_4` (the last is used by no function of the crate, so no accuracy statement
+depends on it; a mutation campaign found its shift amount unguarded) -/
 theorem public_constants :
     Generated.twoPiBits = Int.ofNat (Generated.twoPiSrc >>> Generated.twoPiShift) ∧
     Generated.piBits = Int.ofNat (Generated.piSrc >>> Generated.piShift) ∧
